@@ -10,6 +10,7 @@ import (
 	res "github.com/jirenius/go-res"
 
 	"verif/sim/sched"
+	"verif/sim/simconn"
 )
 
 // applyOptions registers apply handlers per the pattern spec. They record
@@ -195,6 +196,7 @@ func (e *Engine) doQueryReq(s *Submission, op *Op) {
 	default:
 		payload = []byte(op.Payload)
 	}
+	e.Mon.Inboxes[s.Inbox] = simconn.InboxInfo{Query: true}
 	s.Invoke = e.H.Rec("qreq.send", q.Group, op.ID, q.RName)
 	ds := e.Conn.Inject(q.Subject, s.Inbox, payload)
 	s.Routed = len(ds)
